@@ -62,6 +62,26 @@ T = {
  "C10-2": ("C10", "bit flip in a journal chunk payload read through a batched API", "first-run", "C01 crc-gate (the C10 rule set leaves NewCompressedChunk to C01)", "reported by the sibling property's rule"),
  "C08-1": ("C08", "full GC after commit+tag, gc, then branch rewound/deleted (chunks only in old old-gen files, reachable only from new-gen roots)", "strengthened", "C08 generational-order (new-generation filter derives from AddChunksToStore)", "missed by the first C08 rule set"),
  "C08-2": ("C08", "chunk X put before the GC and left uncommitted, identical chunk put again during the GC, parent committed after the GC", "strengthened", "C08 write-offered-to-keeper (a memtable write/hit is acknowledged with a possibly-true result only past the keeper call or the no-keeper edge; needs path facts carried through phis and an untested comparison, ReachFactsF)", "missed by the rule set that modelled the keeper handshake per front-end only (patch re-based onto fix b3e3cc0, see REBASE_NOTE.txt)"),
+ "C02-3": ("C02", "chunks put and then committed without moving the root (Commit(r, r)) on a journaled store, observed by a second opener or after a crash without Close", "strengthened", "C02 journal-ack (ChunkJournal.Update adopts/returns the proposed contents only after commitRootHash returned nil)", "the first C02 rule set constrained when the root record may be written, not that an acknowledged update must have written it"),
+ "C02-4": ("C02", "two writers on one file manifest; the loser of the CAS proposes the root that is already current after writing an extra chunk", "first-run", "C02 install-after-cas (success only when the manifest carries the proposed lock)", ""),
+ "C03-3": ("C03", "damage inside a synced record followed by valid root+chunk records, reopened read-only (lock held elsewhere)", "strengthened", "C03 dataloss-scan-on-every-recovery", "the first rule only required the scan before a Truncate"),
+ "C03-4": ("C03", "first commit through a fresh journal that changes both table-file set and root, process stopped between the root record and the manifest write", "first-run", "C02/C03 journal-specs-first", ""),
+ "C05-3": ("C05", "Update starts while a grace prune holds the manifest lock and has not yet unlinked the file", "first-run", "C05 manifest-presence-check", "same clause as C05-1, different function"),
+ "C05-4": ("C05", "a pruning store whose cached manifest is older than the one on disk, directory quiescent past the grace period", "first-run", "C05 prune-keep-set (keep set includes the manifest parsed under the lock)", ""),
+ "C07-3": ("C07", "Put(R) with a never-written child; Commit(R) rejected; the same Commit retried", "first-run", "C07 dangling-root-check (root checked only after the memtable flush)", "same mechanism as C07-2 (rule added for that seed)"),
+ "C07-4": ("C07", "AddTableFilesToManifest with a dangling reference that falls into the last partial batch of a batched reference check", "strengthened", "C07 walked-addresses-checked (deferred/batched check must run after the iteration before success)", "first reported only through the site floor of walker-error-consumed (which a correct batching refactor would also have tripped); the rule was rebuilt at literal-family level; a correct batched variant is kept as refactors/r3-01 and is silent"),
+ "C09-3": ("C09", "a table with conflict/violation artifacts", "first-run", "C09 walker-no-early-exit", "same mechanism as C09-2 (rule added for that seed), folded into one loop"),
+ "C09-4": ("C09", "adaptive-encoded columns only (TEXT/BLOB/JSON default) holding an out-of-band value", "first-run", "C09 addr-offsets-both-classes", ""),
+ "C20-3": ("C20", "a working-set write that dirties the working set lands between Delete's first evaluation and its root CAS", "first-run", "C20 ws-clean-before-edit", ""),
+ "C20-4": ("C20", "A reads W0; B reads W0; B writes; A writes with prev=W0 through a writer that bypasses the per-branch lock", "strengthened", "C20 cas-token-forwarded (layers above store/datas hand the caller's expected hash down unchanged, not in a loop)", "the first C20 rule set stopped at store/datas"),
+ "C21-3": ("C21", "a concurrent head mover before the head CAS, or a crash between the two root updates", "first-run", "C21 single-update / both-edits-one-closure", ""),
+ "C21-4": ("C21", "a branch with a head but no working set, plus a second session or crash between the two updates", "first-run", "C21 layer-single-write", ""),
+ "C35-3": ("C35", "two concurrent FF-only pushes of sibling commits to a branch that does not exist yet", "first-run", "C35 push-nonforce-uses-cas (+ mover-table)", ""),
+ "C35-4": ("C35", "one HasMany call with more than 16384 uncached addresses against an empty remote", "missed", "", "value-level: batch-relative vs global index arithmetic in the client's HasMany"),
+ "C41-3": ("C41", "read-only open of a journal without a root record while a manifest exists", "first-run", "C41 mutation-needs-lock (guarded-method table; bootstrap edge)", "same clause as C41-1 through a new helper"),
+ "C41-4": ("C41", "read-only open of a journal with a torn tail", "first-run", "C03 truncate-needs-tryTruncate, C41 mutation-needs-can-write", "same mechanism as C41-2"),
+ "C45-3": ("C45", "a commit whose Execute lands while the replication thread builds its session for an older root", "first-run", "C45 attempt-opened-under-lock", "same mechanism as C45-1 (rule added for that seed)"),
+ "C45-4": ("C45", "a branch and a tag with the same name on the remote, the branch deleted there", "missed", "", "identity key of a ref (GetPath vs String) is value-level; a rule naming the accessor would fire on equivalent rewrites"),
  "C18-1": ("C18", "a commit with three or more parents whose third parent has ancestors the first two lack (octopus merge)", "strengthened", "C18 closure-loops-complete (a loop over the parents is left only through its condition or towards an error return)", "the first C18 rule set checked that every iteration performs the diff, not that the loop is not left early"),
  "C18-2": ("C18", "a duplicate parent listed before a different parent ([A, A, B])", "first-run", "C18 heights-from-parents (parents[j] decoded from the value read for opts.Parents[j])", ""),
  "C19-1": ("C19", "two merge commits of equal height that share a direct parent while a more recent common ancestor exists", "missed", "", "an added fast path that returns a (non-maximal) common ancestor: which ancestor is highest is a value-level fact about the graph; a rule 'results come only from the closure walk' would also fire on a correct fast path"),
